@@ -277,6 +277,18 @@ func runC16(args []string) int {
 			rep.count("B:scenario/file-beyond-its-limit-frees-its-end-then-empty-"+end, 1)
 		}
 	}
+	// directed: a full bounded file whose newest commit(s) used the overflow area: the header's meta end marker lies
+	// beyond its data end marker - a legal state that every validation has to accept (seeded change C16n)
+	for v := 0; v < 3; v++ {
+		hr := rand.New(rand.NewSource(int64(870 + v)))
+		ops := fillAllOps(hr)
+		for t := 0; t <= v; t++ {
+			ops = append(ops, engine.Op{Kind: "begin", Overflow: true, WALLimit: 1000}, engine.Op{Kind: "setfull", P: t, Seed: 20 + t},
+				engine.Op{Kind: "setfull", P: 3 + t, Seed: 30 + t}, engine.Op{Kind: "commit"})
+		}
+		c16History(rep, m, engine.Config{PageSize: 1024, MaxSize: 64 * 1024, InitMetaArea: uint32(2 * (v % 2))}, ops, int64(870+v), "")
+		rep.count("B:scenario/newest-commits-use-the-overflow-area", 1)
+	}
 	for h := 0; h < nB; h++ {
 		if rep.outOfTime() {
 			break
